@@ -1318,3 +1318,190 @@ theorem convLoopBody_scope (L : Locals) : ∀ (ss : List Stmt) (lo : VSet) {vis 
 end
 
 end OV.C01
+
+namespace OV.C01
+
+/-! ## Function level -/
+
+theorem convRetOne_scope {L : Locals} {inputs : List Name} {e : Expr} {pref : Name} {outs : List Name}
+    {o : Name} {ns : List Node} {s s' : St} {vis : List Name} (hL : VisOK vis L)
+    (h : convRetOne L inputs e pref outs s = .ok ((o, ns), s')) : ExprOK vis o ns := by
+  unfold convRetOne at h
+  mbind h with p s1 h1
+  obtain ⟨rv, ns1⟩ := p
+  try dsimp only at h
+  mbind h with p s2 h2
+  obtain ⟨rv2, ns2⟩ := p
+  try dsimp only at h
+  have a1 := convExpr_scope L e _ hL h1
+  have a2 : ExprOK (topDefs ns1 ++ vis) rv2 ns2 := by
+    by_cases hi : returnsInput L inputs rv = true
+    · rw [if_pos hi] at h2; exact (emitCopy_scope a1.2 h2).1
+    · rw [if_neg hi] at h2
+      obtain ⟨e1, e2⟩ := pure_ok h2
+      cases e1
+      exact ⟨wfNodes_nil _, by simpa [topDefs] using a1.2⟩
+  by_cases hc : outs.contains rv2 = true
+  · rw [if_pos hc] at h
+    mbind h with p s3 h3
+    obtain ⟨rv3, ns3⟩ := p
+    try dsimp only at h
+    obtain ⟨e1, e2⟩ := pure_ok h
+    cases e1
+    have a3 := (emitCopy_scope a2.2 h3).1
+    exact ⟨wf_app a1.1 (wf_app a2.1 a3.1), mem_after_app (mem_after_app a3.2)⟩
+  · rw [if_neg hc] at h
+    obtain ⟨e1, e2⟩ := pure_ok h
+    cases e1
+    exact ⟨wf_app a1.1 a2.1, mem_after_app a2.2⟩
+
+theorem convRetAll_scope {L : Locals} {inputs : List Name} {single : Bool} :
+    ∀ (es : List Expr) (i : Nat) (outs : List Name) {vis : List Name} {outs' : List Name} {ns : List Node}
+      {s s' : St}, VisOK vis L → (∀ o, o ∈ outs → o ∈ vis) →
+      convRetAll L inputs single es i outs s = .ok ((outs', ns), s') →
+      wfNodes vis ns = true ∧ ∀ o, o ∈ outs' → o ∈ topDefs ns ++ vis := by
+  intro es
+  induction es with
+  | nil =>
+    intro i outs vis outs' ns s s' _ ho h
+    unfold convRetAll at h
+    obtain ⟨e1, e2⟩ := pure_ok h
+    cases e1
+    exact ⟨wfNodes_nil _, fun o hm => by simpa [topDefs] using ho o hm⟩
+  | cons e es ih =>
+    intro i outs vis outs' ns s s' hL ho h
+    unfold convRetAll at h
+    simp only at h
+    mbind h with p s1 h1
+    obtain ⟨o, ns1⟩ := p
+    try dsimp only at h
+    mbind h with p s2 h2
+    obtain ⟨outs2, ns2⟩ := p
+    try dsimp only at h
+    obtain ⟨e1, e2⟩ := pure_ok h
+    cases e1
+    have a1 := convRetOne_scope hL h1
+    obtain ⟨w2, m2⟩ := ih (i + 1) (outs ++ [o]) (vis := topDefs ns1 ++ vis) (hL.mono (vis_grow ns1))
+      (by
+        intro o' ho'
+        rcases List.mem_append.mp ho' with ho' | ho'
+        · exact vis_grow ns1 _ (ho o' ho')
+        · simp only [List.mem_singleton] at ho'; subst ho'; exact a1.2) h2
+    exact ⟨wf_app a1.1 w2, fun o' ho' => mem_after_app (m2 o' ho')⟩
+
+theorem convRetStmt_scope {L : Locals} {inputs : List Name} {rc : Option Nat} {es : List Expr} {bare : Bool}
+    {outs outs' : List Name} {ns : List Node} {s s' : St} {vis : List Name} (hL : VisOK vis L)
+    (ho : ∀ o, o ∈ outs → o ∈ vis)
+    (h : convRetStmt L inputs rc es bare outs s = .ok ((outs', ns), s')) :
+    wfNodes vis ns = true ∧ ∀ o, o ∈ outs' → o ∈ topDefs ns ++ vis := by
+  unfold convRetStmt at h
+  by_cases hb : bare = true
+  · rw [if_pos hb] at h; exact (failM_ok h).elim
+  · rw [if_neg hb] at h
+    cases rc with
+    | none => exact convRetAll_scope _ _ _ hL ho h
+    | some k =>
+      simp only at h
+      by_cases hk : k ≠ es.length
+      · rw [if_pos hk] at h; exact (failM_ok h).elim
+      · rw [if_neg hk] at h; exact convRetAll_scope _ _ _ hL ho h
+
+theorem convTop_scope {inputs : List Name} {rc : Option Nat} :
+    ∀ (ss : List Stmt) (L : Locals) (outs : List Name) {vis : List Name} {ns : List Node}
+      {outs' : List Name} {s s' : St}, VisOK vis L → (∀ o, o ∈ outs → o ∈ vis) →
+      convTop inputs rc L ss outs s = .ok ((ns, outs'), s') →
+      wfNodes vis ns = true ∧ ∀ o, o ∈ outs' → o ∈ topDefs ns ++ vis := by
+  intro ss
+  induction ss with
+  | nil =>
+    intro L outs vis ns outs' s s' _ ho h
+    unfold convTop at h
+    obtain ⟨e1, e2⟩ := pure_ok h
+    cases e1
+    exact ⟨wfNodes_nil _, fun o hm => by simpa [topDefs] using ho o hm⟩
+  | cons st ss ih =>
+    intro L outs vis ns outs' s s' hL ho h
+    by_cases hb : ∃ es b, st = .ret es b
+    · obtain ⟨es, b, rfl⟩ := hb
+      unfold convTop at h
+      mbind h with p s1 h1
+      obtain ⟨outs1, ns1⟩ := p
+      try dsimp only at h
+      mbind h with p s2 h2
+      obtain ⟨ns2, outs2⟩ := p
+      try dsimp only at h
+      obtain ⟨e1, e2⟩ := pure_ok h
+      cases e1
+      obtain ⟨w1, m1⟩ := convRetStmt_scope hL ho h1
+      obtain ⟨w2, m2⟩ := ih L outs1 (vis := topDefs ns1 ++ vis) (hL.mono (vis_grow ns1)) m1 h2
+      exact ⟨wf_app w1 w2, fun o hm => mem_after_app (m2 o hm)⟩
+    · rw [convTop_cons_nonret inputs rc L st ss outs (fun es b hc => hb ⟨es, b, hc⟩)] at h
+      mbind h with p s1 h1
+      obtain ⟨L1, ns1⟩ := p
+      try dsimp only at h
+      mbind h with p s2 h2
+      obtain ⟨ns2, outs2⟩ := p
+      try dsimp only at h
+      obtain ⟨e1, e2⟩ := pure_ok h
+      cases e1
+      have r1 := convStmt_scope L st _ hL h1
+      obtain ⟨w2, m2⟩ := ih L1 outs (vis := topDefs ns1 ++ vis) r1.2
+        (fun o hm => vis_grow ns1 _ (ho o hm)) h2
+      exact ⟨wf_app r1.1 w2, fun o hm => mem_after_app (m2 o hm)⟩
+
+theorem paramFrame_vis : ∀ (ps : List Param) (p : Name × Bind), p ∈ paramFrame ps →
+    ∀ n, p.2 = Bind.val n → n ∈ tensorParams ps := by
+  intro ps
+  induction ps with
+  | nil => intro p hp; simp [paramFrame] at hp
+  | cons q qs ih =>
+    intro p hp n hn
+    cases q with
+    | tensor x =>
+      simp only [paramFrame, List.mem_append, List.mem_singleton] at hp
+      rcases hp with hp | hp
+      · have := ih p hp n hn
+        simp [tensorParams, this]
+        exact Or.inr (by simpa [tensorParams] using this)
+      · subst hp
+        cases hn
+        simp [tensorParams]
+    | attr x ty =>
+      simp only [paramFrame, List.mem_append, List.mem_singleton] at hp
+      rcases hp with hp | hp
+      · have := ih p hp n hn
+        simpa [tensorParams] using this
+      · subst hp
+        cases hn
+
+/-- **Scoped definition before use.**  In the emitted function body every node input — at every nesting
+depth — names a function input, an output of an earlier node of the same graph, or a value of an enclosing
+graph defined before the enclosing control-flow node; every If/Loop subgraph output is produced by a node
+of that subgraph; and every function output is visible at the end of the body. -/
+theorem convert_scoped_ok {f : Func} {g : Graph} (h : convert f = .ok g) :
+    wfNodes g.inputs g.nodes = true ∧ ∀ o, o ∈ g.outputs → o ∈ g.inputs ++ topDefs g.nodes := by
+  unfold convert at h
+  cases ha : assignedBlock f.body with
+  | none => rw [ha] at h; cases h
+  | some d =>
+    rw [ha] at h
+    simp only at h
+    cases hc : convTop (tensorParams f.params) f.retCount [paramFrame f.params] f.body []
+        { used := (tensorParams f.params).reverse, next := 0, castable := [] } with
+    | error e => rw [hc] at h; cases h
+    | ok r =>
+      obtain ⟨⟨ns, outs⟩, s'⟩ := r
+      rw [hc] at h
+      cases h
+      have hL : VisOK (tensorParams f.params) [paramFrame f.params] := by
+        intro fr hfr p hp n hn
+        simp only [List.mem_singleton] at hfr
+        subst hfr
+        exact paramFrame_vis _ p hp n hn
+      obtain ⟨w, m⟩ := convTop_scope _ _ _ hL (fun o ho => by cases ho) hc
+      refine ⟨w, fun o ho => ?_⟩
+      have := m o ho
+      simp only [List.mem_append] at this ⊢
+      exact this.symm
+
+end OV.C01
